@@ -100,13 +100,14 @@ def run_case(case: dict) -> dict:
             # the consumer learns the shared configuration from its object dictionary (as from a DCF)
             od2[0x1800 + k][1].default = (c["cob"] | (0 if c["enabled"] else 0x80000000)
                                           | (0 if c["rtr"] else 0x40000000))
-            od2[0x1800 + k][2].default = 255
+            od2[0x1800 + k][2].default = c.get("tt", 255)
             od2[0x1A00 + k][0].default = len(lay)
             for i, (t, n) in enumerate(lay):
                 od2[0x1A00 + k][i + 1].default = ((0x2000 + objs[i]) << 16) | n
             pm.read(from_od=True)
         else:
             pm.cob_id, pm.enabled, pm.rtr_allowed = c["cob"], c["enabled"], c["rtr"]
+            pm.trans_type = c.get("tt", 255)
             add_vars(pm)
         cbcount.append(0)
         for _ in range(c["ncb"]):
